@@ -625,6 +625,17 @@ def r02_13(ctx):
     delegate(ctx, c05.r05_9, lambda c: "deferred member assignments" in c)
 
 
+def r02_14(ctx):
+    """R02.14 the marker and the value of one entry are decided in one evaluation: Symbol.config_string evaluates the value before it asks
+    has_active_default_value() (C03 R03.6: the flag it reads is recomputed by that evaluation) - the other order writes a user value
+    behind `# default:`; and every operand of a relation is a dependency (C03 R03.5): a value that stays stale after an edit is
+    written behind the marker and reported as a mismatch on reload."""
+    from . import c03
+    from .common import delegate
+    delegate(ctx, c03.r03_6, lambda c: 'config_string' in c)
+    delegate(ctx, c03.r03_5, lambda c: c.startswith('_depend_on/'))
+
+
 def rules():
-    return [("R02.13", r02_13, 1), ("R02.12", r02_12, 8), ("R02.11", r02_11, 3), ("R02.1", r02_1, 8), ("R02.2", r02_2, 8), ("R02.3", r02_3, 9), ("R02.4", r02_4, 3), ("R02.5", r02_5, 5),
+    return [("R02.14", r02_14, 4), ("R02.13", r02_13, 1), ("R02.12", r02_12, 8), ("R02.11", r02_11, 3), ("R02.1", r02_1, 8), ("R02.2", r02_2, 8), ("R02.3", r02_3, 9), ("R02.4", r02_4, 3), ("R02.5", r02_5, 5),
             ("R02.6", r02_6, 3), ("R02.7", r02_7, 3), ("R02.8", r02_8, 2), ("R02.9", r02_9, 6), ("R02.10", r02_10, 3)]
